@@ -56,9 +56,17 @@ Proof. exact abort_at_pass_boundary. Qed.
 Print Assumptions C16_abort_at_pass_boundary.
 
 Theorem C16_default_policy_never_raises : forall (M : Type) (passes : list (M -> M)) k (m : M),
-  policy_outcome None None passes (Some k) m = Some (Returned M (run_prefix M passes k m)).
+  policy_outcome None None passes (Some k) m
+  = Some (Returned M (if failure_policy_restores_input then m else run_prefix M passes k m)).
 Proof. exact (@default_policy_never_raises). Qed.
 Print Assumptions C16_default_policy_never_raises.
+
+(* current code (/repo: the policy keeps a structural clone and puts it back): the default policy returns EXACTLY the
+   un-optimised model, whatever the passes did before or while failing *)
+Theorem C16_default_policy_returns_input : forall (M : Type) (passes : list (M -> M)) k (m : M),
+  failure_policy_restores_input = true -> policy_outcome None None passes (Some k) m = Some (Returned M m).
+Proof. exact (@default_policy_returns_input). Qed.
+Print Assumptions C16_default_policy_returns_input.
 
 Theorem C16_strict_policy_reraises : forall (M : Type) (passes : list (M -> M)) k (m : M) env,
   policy_outcome (Some true) env passes (Some k) m = Some (Reraised M).
